@@ -69,8 +69,8 @@ func vSetup() (d *sackDriver, sink *N.Sink, src *N.Source, local netip.Addr, tar
 // with strict checking - the source address and port.
 func vGenuineICMP(p []byte, ihl, qihl int, pr []byte, loosen bool) bool {
 	o := ihl * 4
-	if len(p) < o+8+qihl*4+8 {
-		return false
+	if qihl < 5 || len(p) < o+8+qihl*4+8 {
+		return false // the quote does not hold an IPv4 header plus 8 transport bytes
 	}
 	q := p[o+8:]
 	t := q[qihl*4:]
